@@ -103,7 +103,12 @@ def _note_flag_constraint(r, env_, title, addr, flags, out, formula, strict_text
             sat.append(''.join('1' if b else '0' for b in combo))
     if not sat or len(sat) == 2 ** len(flags):
         return
-    sig = json.dumps([list(flags), sat])
+    # one reading per clause AND per function: the statement does not say that, for instance, VLOOKUP and MATCH have to agree on
+    # whether a blank key equals 0 - only that each of them is one function of its arguments
+    import re as _re
+    m = _re.match(r'^=\s*([A-Z]+)\(', str(formula))
+    scope = m.group(1) if m else 'expr'
+    sig = json.dumps([[f'{fl}@{scope}' for fl in flags], sat])
     s0 = r.sets.setdefault('flag_constraints', set())
     if sig not in s0 and len(s0) < 400:
         s0.add(sig)
@@ -117,31 +122,40 @@ def flag_consistency_verdict(r, prop):
     cons = [json.loads(x) for x in r.sets.get('flag_constraints', ())]
     if not cons:
         return {'silent_clause_constraints': 0}
-    allflags = sorted({f for fl, _ in cons for f in fl})
     examples = {}
     for x in r.sets.get('flag_constraint_examples', ()):
         sig, formula = json.loads(x)
         examples.setdefault(sig, formula)
-    ok_assignments = []
-    if len(allflags) <= 12:
-        for combo in itertools.product('01', repeat=len(allflags)):
-            a = dict(zip(allflags, combo))
-            if all(''.join(a[f] for f in fl) in sat for fl, sat in cons):
-                ok_assignments.append(a)
-    else:
-        ok_assignments = [None]
-    if not ok_assignments:
-        # witness: a flag that one execution needs to be on and another needs to be off
-        witness = None
-        for f in allflags:
-            need1 = [(fl, sat) for fl, sat in cons if f in fl and all(s_[fl.index(f)] == '1' for s_ in sat)]
-            need0 = [(fl, sat) for fl, sat in cons if f in fl and all(s_[fl.index(f)] == '0' for s_ in sat)]
-            if need1 and need0:
-                witness = {'silent_clause': f, 'needs_reading_on': examples.get(json.dumps(need1[0])), 'needs_reading_off': examples.get(json.dumps(need0[0]))}
+    # constraints only ever mention flags of one scope (function): solve scope by scope
+    scopes = {}
+    for fl, sat in cons:
+        scopes.setdefault(fl[0].split('@')[1] if '@' in fl[0] else '', []).append((fl, sat))
+    readings, bad = {}, None
+    for scope, group in sorted(scopes.items()):
+        flags = sorted({f for fl, _ in group for f in fl})
+        found = None
+        for combo in itertools.product('01', repeat=len(flags)):
+            a = dict(zip(flags, combo))
+            if all(''.join(a[f] for f in fl) in sat for fl, sat in group):
+                found = a
                 break
-        r.violation('silent-clause-consistency', {'flags': allflags, 'witness': witness, 'constraints': len(cons), 'no_replay': True},
-                    'no single reading of the clauses the statement leaves open explains all executions of this run', 'one reading per silent clause')
-    return {'silent_clause_constraints': len(cons), 'silent_clause_readings_consistent_with_all_executions': ok_assignments[:4] if ok_assignments and ok_assignments[0] else []}
+        if found is None:
+            witness = None
+            for f in flags:
+                need1 = [(fl, sat) for fl, sat in group if f in fl and all(s_[fl.index(f)] == '1' for s_ in sat)]
+                need0 = [(fl, sat) for fl, sat in group if f in fl and all(s_[fl.index(f)] == '0' for s_ in sat)]
+                if need1 and need0:
+                    witness = {'silent_clause': f, 'needs_reading_on': examples.get(json.dumps(list(need1[0]))),
+                               'needs_reading_off': examples.get(json.dumps(list(need0[0])))}
+                    break
+            bad = bad or {'scope': scope, 'flags': flags, 'witness': witness, 'constraints': len(group)}
+        else:
+            readings[scope] = found
+    if bad:
+        r.violation('silent-clause-consistency', dict(bad, no_replay=True),
+                    'no single reading of the clauses the statement leaves open explains all executions of this function in this run',
+                    'one reading per silent clause and function')
+    return {'silent_clause_constraints': len(cons), 'silent_clause_readings_consistent_with_all_executions': readings}
 
 
 def replay_case(ctx, prop, case, **kw):
